@@ -413,6 +413,8 @@ impl E3Job {
         let mut baselines = baselines(tier, seed);
         let n_field_baselines = baselines.len();
         baselines.extend(crate::shapes::all());
+        let dups = crate::shapes::duplicate_shapes(&baselines[..n_field_baselines]);
+        baselines.extend(dups);
         let max_bulk = 1 << 16;
         let mut units = vec![];
         for (bi, b) in baselines.iter().enumerate() {
